@@ -20,7 +20,7 @@ func (e *Engine) canProceed(st *State, g *G) bool {
 		return m == nil || (m.owner == 0 && m.readers == 0)
 	case wRLock:
 		m := st.locks[lockKeyS(g)]
-		return m == nil || m.owner == 0
+		return m == nil || (m.owner == 0 && !e.writerWaiting(st, lockKeyS(g)))
 	case wWG:
 		return st.wgs[lockKeyS(g)] <= 0
 	case wRecv:
@@ -54,6 +54,16 @@ func (e *Engine) canProceed(st *State, g *G) bool {
 }
 
 func lockKeyS(g *G) string { return g.name2 }
+
+// writerWaiting: some goroutine is blocked in Lock() on the RWMutex with this key
+func (e *Engine) writerWaiting(st *State, key string) bool {
+	for _, g := range st.gs {
+		if g.status == gBlocked && g.wait == wLock && g.name2 == key {
+			return true
+		}
+	}
+	return false
+}
 
 func (e *Engine) parkedSender(st *State, ch int) *G {
 	for _, g := range st.gs {
